@@ -77,18 +77,18 @@ def cover : List (String × List Cover) := [
   ("amgcl/detail/spgemm.hpp|spgemm_rmerge|C.ptr", [.thm "Amgcl.C10f.spgemm_rmerge_defined", .poison "h_pipeline"]),
   ("amgcl/detail/spgemm.hpp|spgemm_saad|C.col+val", [.thm "Amgcl.C10.product_cells_all_written", .poison "h_pipeline"]),
   ("amgcl/detail/spgemm.hpp|spgemm_saad|C.ptr", [.thm "Amgcl.C10.product_cells_all_written", .poison "h_pipeline"]),
-  ("amgcl/mpi/coarsening/pmis.hpp|pmis::conn_strength|S_loc.col", [.poison "h_mpi_solve_poison"]),
-  ("amgcl/mpi/coarsening/pmis.hpp|pmis::conn_strength|S_loc.val", [.poison "h_mpi_solve_poison"]),
-  ("amgcl/mpi/coarsening/pmis.hpp|pmis::conn_strength|S_rem.col", [.poison "h_mpi_solve_poison"]),
-  ("amgcl/mpi/coarsening/pmis.hpp|pmis::conn_strength|S_rem.val", [.poison "h_mpi_solve_poison"]),
+  ("amgcl/mpi/coarsening/pmis.hpp|pmis::conn_strength|S_loc.col", [.thm "Amgcl.C10i.pmis_strength_col_defined", .poison "h_mpi_solve_poison"]),
+  ("amgcl/mpi/coarsening/pmis.hpp|pmis::conn_strength|S_loc.val", [.thm "Amgcl.C10i.pmis_strength_val_defined", .poison "h_mpi_solve_poison"]),
+  ("amgcl/mpi/coarsening/pmis.hpp|pmis::conn_strength|S_rem.col", [.thm "Amgcl.C10i.pmis_strength_col_defined", .poison "h_mpi_solve_poison"]),
+  ("amgcl/mpi/coarsening/pmis.hpp|pmis::conn_strength|S_rem.val", [.thm "Amgcl.C10i.pmis_strength_val_defined", .poison "h_mpi_solve_poison"]),
   ("amgcl/mpi/coarsening/pmis.hpp|pmis::squared_interface|S_loc.col", [.poison "h_mpi_solve_poison"]),
   ("amgcl/mpi/coarsening/pmis.hpp|pmis::squared_interface|S_loc.ptr", [.poison "h_mpi_solve_poison"]),
   ("amgcl/mpi/coarsening/pmis.hpp|pmis::squared_interface|S_rem.col", [.poison "h_mpi_solve_poison"]),
   ("amgcl/mpi/coarsening/pmis.hpp|pmis::squared_interface|S_rem.ptr", [.poison "h_mpi_solve_poison"]),
-  ("amgcl/mpi/coarsening/pmis.hpp|pmis::tentative_prolongation|P_loc.col+val#2", [.poison "h_mpi_solve_poison"]),
-  ("amgcl/mpi/coarsening/pmis.hpp|pmis::tentative_prolongation|P_rem.col+val#2", [.poison "h_mpi_solve_poison"]),
-  ("amgcl/mpi/coarsening/smoothed_aggregation.hpp|smoothed_aggregation::operators|Af_loc_val", [.poison "h_mpi_solve_poison"]),
-  ("amgcl/mpi/coarsening/smoothed_aggregation.hpp|smoothed_aggregation::operators|Af_rem_val", [.poison "h_mpi_solve_poison"]),
+  ("amgcl/mpi/coarsening/pmis.hpp|pmis::tentative_prolongation|P_loc.col+val#2", [.thm "Amgcl.C10i.pmis_tentative_defined", .poison "h_mpi_solve_poison"]),
+  ("amgcl/mpi/coarsening/pmis.hpp|pmis::tentative_prolongation|P_rem.col+val#2", [.thm "Amgcl.C10i.pmis_tentative_defined", .poison "h_mpi_solve_poison"]),
+  ("amgcl/mpi/coarsening/smoothed_aggregation.hpp|smoothed_aggregation::operators|Af_loc_val", [.thm "Amgcl.C10i.mpi_sa_filtered_val_defined", .poison "h_mpi_solve_poison"]),
+  ("amgcl/mpi/coarsening/smoothed_aggregation.hpp|smoothed_aggregation::operators|Af_rem_val", [.thm "Amgcl.C10i.mpi_sa_filtered_val_defined", .poison "h_mpi_solve_poison"]),
   ("amgcl/mpi/coarsening/smoothed_aggregation.hpp|smoothed_aggregation::operators|Df", [.poison "h_mpi_solve_poison"]),
   ("amgcl/mpi/direct_solver/solver_base.hpp|solver_base::init|A.col+val", [.thm "Amgcl.C10g.solver_base_gather_defined", .poison "h_mpi_solve_poison"]),
   ("amgcl/mpi/direct_solver/solver_base.hpp|solver_base::init|A.ptr", [.thm "Amgcl.C10g.solver_base_gather_defined", .poison "h_mpi_solve_poison"]),
@@ -102,8 +102,8 @@ def cover : List (String × List Cover) := [
   ("amgcl/mpi/distributed_matrix.hpp|product|C_rem.ptr", [.poison "h_mpi_solve_poison"]),
   ("amgcl/mpi/distributed_matrix.hpp|remote_rows|B_nbr.col+val", [.thm "Amgcl.C10g.remote_rows_nbr_defined", .poison "h_mpi_solve_poison"]),
   ("amgcl/mpi/distributed_matrix.hpp|remote_rows|B_nbr.ptr", [.thm "Amgcl.C10g.remote_rows_nbr_defined", .poison "h_mpi_solve_poison"]),
-  ("amgcl/mpi/distributed_matrix.hpp|remote_rows|m.col+val", [.poison "h_mpi_solve_poison"]),
-  ("amgcl/mpi/distributed_matrix.hpp|remote_rows|m.ptr", [.poison "h_mpi_solve_poison"]),
+  ("amgcl/mpi/distributed_matrix.hpp|remote_rows|m.col+val", [.thm "Amgcl.C10i.remote_rows_send_defined", .poison "h_mpi_solve_poison"]),
+  ("amgcl/mpi/distributed_matrix.hpp|remote_rows|m.ptr", [.thm "Amgcl.C10i.remote_rows_send_defined", .poison "h_mpi_solve_poison"]),
   ("amgcl/mpi/distributed_matrix.hpp|spectral_radius|b0", [.thm "Amgcl.C10g.mpi_spectral_radius_defined", .poison "h_mpi_poison"]),
   ("amgcl/mpi/distributed_matrix.hpp|spectral_radius|b1", [.thm "Amgcl.C10g.mpi_spectral_radius_defined", .poison "h_mpi_poison"]),
   ("amgcl/mpi/distributed_matrix.hpp|spectral_radius|rem_col", [.thm "Amgcl.C10g.mpi_rem_col_defined", .poison "h_mpi_poison"]),
@@ -112,7 +112,7 @@ def cover : List (String × List Cover) := [
   ("amgcl/mpi/partition/util.hpp|graph_perm_matrix|I_rem.col+val", [.thm "Amgcl.C10g.graph_perm_matrix_defined", .poison "h_mpi_solve_poison"]),
   ("amgcl/mpi/partition/util.hpp|graph_perm_matrix|I_rem.ptr", [.thm "Amgcl.C10g.graph_perm_matrix_defined", .poison "h_mpi_solve_poison"]),
   ("amgcl/mpi/relaxation/spai0.hpp|spai0::spai0|m", [.thm "Amgcl.C10g.mpi_spai0_defined", .poison "h_mpi_solve_poison"]),
-  ("amgcl/preconditioner/cpr.hpp|cpr::first_scalar_pass|App.col+val", [.poison "h_pipeline"]),
+  ("amgcl/preconditioner/cpr.hpp|cpr::first_scalar_pass|App.col+val", [.thm "Amgcl.C10j.cpr_App_scalar_defined", .poison "h_pipeline"]),
   ("amgcl/preconditioner/cpr.hpp|cpr::first_scalar_pass|fpp.col+val", [.thm "Amgcl.C10e.cpr_fpp_defined", .poison "h_pipeline"]),
   ("amgcl/preconditioner/cpr.hpp|cpr::first_scalar_pass|fpp.ptr", [.thm "Amgcl.C10e.cpr_fpp_defined", .poison "h_pipeline"]),
   ("amgcl/preconditioner/cpr.hpp|cpr::init|App.col+val", [.thm "Amgcl.C10e.cpr_App_block_defined", .poison "h_pipeline"]),
@@ -124,7 +124,7 @@ def cover : List (String × List Cover) := [
   ("amgcl/preconditioner/cpr.hpp|cpr::init|scatter.ptr#2", [.thm "Amgcl.C10e.cpr_scatter_defined", .poison "h_pipeline"]),
   ("amgcl/preconditioner/cpr.hpp|cpr::update_transfer|fpp.col+val", [.thm "Amgcl.C10e.cpr_fpp_defined", .poison "h_pipeline"]),
   ("amgcl/preconditioner/cpr.hpp|cpr::update_transfer|fpp.ptr", [.thm "Amgcl.C10e.cpr_fpp_defined", .poison "h_pipeline"]),
-  ("amgcl/preconditioner/cpr_drs.hpp|cpr_drs::first_scalar_pass|App.col+val", [.poison "h_pipeline"]),
+  ("amgcl/preconditioner/cpr_drs.hpp|cpr_drs::first_scalar_pass|App.col+val", [.thm "Amgcl.C10j.cpr_drs_App_scalar_defined", .poison "h_pipeline"]),
   ("amgcl/preconditioner/cpr_drs.hpp|cpr_drs::first_scalar_pass|fpp.col+val", [.thm "Amgcl.C10e.cpr_drs_fpp_defined", .poison "h_pipeline"]),
   ("amgcl/preconditioner/cpr_drs.hpp|cpr_drs::first_scalar_pass|fpp.ptr", [.thm "Amgcl.C10e.cpr_drs_fpp_defined", .poison "h_pipeline"]),
   ("amgcl/preconditioner/cpr_drs.hpp|cpr_drs::init|App.col+val", [.thm "Amgcl.C10e.cpr_App_block_defined", .poison "h_pipeline"]),
